@@ -88,9 +88,10 @@ def gen_cases(ctx):
 def spellings(ctx):
     """server specifications in every accepted spelling, plus malformed ones"""
     rng = ctx.rng
-    hosts = ["h", "10.0.0.1", "cache-a.example.com", "::1", "fe80::1%eth0", "unix", "unixx", "a]", "[", "]", "x[y]", "", " h", "h "]
+    hosts = ["h", "10.0.0.1", "cache-a.example.com", "::1", "fe80::1%eth0", "unix", "unixx", "a]", "[", "]", "x[y]", "", " h", "h ",
+             "Cache-A.Internal", "FE80::1", "UNIX", "Unix", "H"]        # the host is taken as written: letter case included
     ports = ["11211", "1", "0", "65535", "011", " 12", "12 ", "+5", "1_0", "-1", "", "x", "0x10", "1.5"]      # (non-ASCII Unicode digits, which int() also accepts, are outside the model)
-    out = [("h", 11211), ("10.0.0.1", 1), ("::1", 11311), ("h", "11211"), "/tmp/mc.sock", "unix:/tmp/mc.sock", "unix:", "unix:rel", "/", "unix:unix:/x"]
+    out = [("h", 11211), ("10.0.0.1", 1), ("::1", 11311), ("h", "11211"), "/tmp/mc.sock", "unix:/tmp/mc.sock", "unix:", "unix:rel", "/", "unix:unix:/x", "UNIX:/tmp/mc.sock", "unix:/Tmp/MC.sock", "/Tmp/MC.sock"]
     for h in hosts:
         out.append(h)
         out.append("[" + h + "]")
@@ -99,7 +100,7 @@ def spellings(ctx):
             out.append("[" + h + "]:" + pt)
     for _ in range(100 if ctx.quick else 1500):
         n = rng.randrange(0, 9)
-        out.append("".join(rng.choice("h1:[]/. unix-_%") for _ in range(n)))
+        out.append("".join(rng.choice("h1:[]/. unix-_%HU") for _ in range(n)))
     return out
 
 
@@ -308,7 +309,10 @@ def search(ctx):
              (["unix:/tmp/x.sock"], ["/tmp/x.sock"]), (["h:1", "g:2"], [("g", 2), ("h", 1)]),
              (["10.0.0.1", "10.0.0.2:11211", "[::1]", "cache.example.com:11212", "unix:/var/run/mc.sock"],
               [("10.0.0.1", 11211), ("10.0.0.2", 11211), ("::1", 11211), ("cache.example.com", 11212), "/var/run/mc.sock"]),
-             (["10.0.0.1", "10.0.0.1:11211", ("10.0.0.1", 11211)], [("10.0.0.1", 11211)])]
+             (["10.0.0.1", "10.0.0.1:11211", ("10.0.0.1", 11211)], [("10.0.0.1", 11211)]),
+             # letter case is part of the name, in the string spelling as in the tuple
+             (["Cache-A.Internal:11211", "Cache-B.Internal"], [("Cache-A.Internal", 11211), ("Cache-B.Internal", 11211)]),
+             (["[FE80::1]:11311", "[FE80::2]"], [("FE80::1", 11311), ("FE80::2", 11211)]), (["unix:/Tmp/MC.sock"], ["/Tmp/MC.sock"])]
     for a, b in spell:
         ha, hb = HashClient(a), HashClient(b)
         na, nb = sorted(ha.hasher.nodes), sorted(hb.hasher.nodes)
